@@ -45,7 +45,7 @@ def _specialiser(p, ns):
     from sa.specialise import flat
     out = []
     for clsname, table, mk in (('Limits', 'SPECIALISE_CASES', lambda: ns['Limits'](2, 5)), ('Sorter', 'SPECIALISE_CASES_2', lambda: ns['Sorter']()),
-                              ('Copier', 'SPECIALISE_CASES_3', lambda: ns['Copier']())):
+                              ('Copier', 'SPECIALISE_CASES_3', lambda: ns['Copier']()), ('Reporter', 'SPECIALISE_CASES_4', lambda: ns['Reporter']())):
         out += _specialiser_cases(p, ns, clsname, ns[table], mk)
     return out
 
@@ -64,8 +64,8 @@ def _specialiser_cases(p, ns, clsname, table, mk):
                 continue
             text = ast.unparse(g.node)
             left = [w for w in ('_check(', '_check_kind(', '_with(', '_rebinding(', 'SIGN_TABLE', 'operator.', 'lambda ', 'lambda:', 'for ',
-                                '_classify(', '_note(', '_is_big(', '_try_copy(', '_place(', '_stat(', '_mode(', 'KINDS', 'PICK', 'pickers', '_emit(', 'rows =')
-                    if w in text and not (w == 'for ' and nm == 'g_try_helper_in_condition')]
+                                '_classify(', '_note(', '_is_big(', '_try_copy(', '_place(', '_stat(', '_mode(', 'KINDS', 'PICK', 'pickers', '_emit(', 'rows =', '_report(')
+                    if w in text and not (w == 'for ' and nm in ('g_try_helper_in_condition', 'g_count_discarded'))]
             # (the second call in g_call_in_condition is evaluated only sometimes: it must stay where it is)
             left = [w for w in left if not (nm == 'g_call_in_condition' and w == '_is_big(' and text.count('_is_big(') == 1)]
             if left:
